@@ -8,4 +8,4 @@ for id in $(/venv/bin/python -c "import json;print(' '.join(c['property_id'] for
   e=$(date +%s)
   echo "$id seed=$SEED tier=$TIER exit=$rc wall=$((e-s))s viol_lines=$(grep -c '^VIOLATION' /tmp/runall_${id}_s${SEED}_${TIER}.log) :: $(tail -1 /tmp/runall_${id}_s${SEED}_${TIER}.log | cut -c1-160)"
 done
-git checkout -- evidence 2>/dev/null
+[ "${KEEP_EVIDENCE:-0}" = "1" ] || git checkout -- evidence 2>/dev/null
